@@ -68,8 +68,11 @@ func (w *World) Opaque(fn *ssa.Function) *ssa.Function {
 }
 
 func (w *World) transparent(h *ssa.Function) bool {
-	if h == nil || h.Blocks == nil || h.Parent() != nil || !w.InRepo(h) || w.opaque[h] {
+	if h == nil || h.Blocks == nil || !w.InRepo(h) || w.opaque[h] {
 		return false
+	}
+	if h.Parent() != nil {
+		return w.callback(h)
 	}
 	if w.roleOpaque == nil {
 		w.roleOpaque = map[*ssa.Function]bool{}
@@ -121,6 +124,7 @@ func (w *World) buildCallSites() {
 		return
 	}
 	w.sites = map[*ssa.Function][]ssa.CallInstruction{}
+	w.cbOK = map[*ssa.Function]bool{}
 	for _, fn := range w.repoFns {
 		for _, b := range fn.Blocks {
 			for _, ins := range b.Instrs {
@@ -132,6 +136,76 @@ func (w *World) buildCallSites() {
 			}
 		}
 	}
+	// callbacks: a closure whose only use is to be handed, as an argument, to repository helpers that do nothing
+	// with the receiving parameter but call it. Its call sites are those dynamic calls.
+	for _, fn := range w.repoFns {
+		for _, b := range fn.Blocks {
+			for _, ins := range b.Instrs {
+				mc, ok := ins.(*ssa.MakeClosure)
+				if !ok {
+					continue
+				}
+				clo, _ := mc.Fn.(*ssa.Function)
+				refs := mc.Referrers()
+				if clo == nil || refs == nil || len(*refs) == 0 {
+					continue
+				}
+				var sites []ssa.CallInstruction
+				good := true
+				for _, r := range *refs {
+					if _, isDbg := r.(*ssa.DebugRef); isDbg {
+						continue
+					}
+					call, isCall := r.(*ssa.Call)
+					h := (*ssa.Function)(nil)
+					if isCall {
+						h = w.helperOf(call)
+					}
+					if h == nil || call.Call.IsInvoke() || call.Call.Value == ssa.Value(mc) {
+						good = false
+						break
+					}
+					for i, a := range call.Call.Args {
+						if a != ssa.Value(mc) {
+							continue
+						}
+						if i >= len(h.Params) || h.Params[i].Referrers() == nil {
+							good = false
+							break
+						}
+						for _, pr := range *h.Params[i].Referrers() {
+							switch u := pr.(type) {
+							case *ssa.DebugRef:
+							case *ssa.Call:
+								if u.Call.Value != ssa.Value(h.Params[i]) {
+									good = false
+								} else {
+									sites = append(sites, u)
+								}
+							default:
+								good = false
+							}
+						}
+					}
+				}
+				// made once
+				if good && len(sites) > 0 && len(w.sites[clo]) == 0 && !w.cbOK[clo] {
+					w.cbOK[clo] = true
+					w.sites[clo] = sites
+				} else if w.cbOK[clo] {
+					// a second MakeClosure of the same function: not followed
+					w.cbOK[clo] = false
+					delete(w.sites, clo)
+				}
+			}
+		}
+	}
+}
+
+// callback: g is a closure all of whose activations are the dynamic calls recorded as its call sites.
+func (w *World) callback(g *ssa.Function) bool {
+	w.buildCallSites()
+	return g != nil && w.cbOK[g]
 }
 
 // callSites: static call sites (call, defer, go) of g in repository code.
@@ -169,6 +243,9 @@ func (w *World) addressTaken(g *ssa.Function) bool {
 // dynCallable: g may be reached other than through its static call sites (method value, interface method,
 // function value).
 func (w *World) dynCallable(g *ssa.Function) bool {
+	if w.callback(g) {
+		return false
+	}
 	if w.addressTaken(g) {
 		return true
 	}
@@ -432,6 +509,20 @@ func (w *World) Pin(root, g *ssa.Function, site ssa.CallInstruction, f func(fact
 	w.pinned[g] = site
 	base := w.factsOf(root)
 	view := &Facts{fn: base.fn, w: w, in: base.in, nd: base.nd, deep: map[*ssa.BasicBlock]map[Lit]bool{}}
+	// boolean parameters bound to constants by the selected call
+	if site != nil {
+		for i, a := range site.Common().Args {
+			if i >= len(g.Params) || !isBoolType(g.Params[i].Type()) {
+				continue
+			}
+			if v, ok := boolConst(a); ok {
+				if view.spec == nil {
+					view.spec, view.specFn = map[*ssa.Parameter]bool{}, g
+				}
+				view.spec[g.Params[i]] = v
+			}
+		}
+	}
 	defer func() {
 		if had {
 			w.pinned[g] = old
@@ -823,7 +914,7 @@ func litLess(a, b Lit) bool {
 // way the analysis does not see).
 func (f *Facts) upFacts(g *ssa.Function) map[Lit]bool {
 	w := f.w
-	if g == f.fn || g.Parent() != nil || w.dynCallable(g) {
+	if g == f.fn || (g.Parent() != nil && !w.callback(g)) || w.dynCallable(g) {
 		return nil
 	}
 	sites := w.sitesIn(f.fn, g)
